@@ -8,7 +8,8 @@ Terminal subset (DESIGN.md section 5, "the terminal")
 ----------------------------------------------------
 tokens                      meaning on the screen
 ("T", text)                 printable characters, written at the cursor, cursor moves right one cell per
-                            character (`width_fn(ch)` cells if a width function is given); no auto-wrap
+                            character (`width_fn(ch)` cells if a width function is given); no auto-wrap unless
+                            the screen was given a `width` (then: deferred wrap at the right margin)
 ("LF",)                     cursor to column 0 of the next row (a tty in its default ONLCR mode turns the
                             "\n" a program writes into CR LF); a new blank row is created when needed and, on
                             a screen with a height, the window scrolls
@@ -174,10 +175,14 @@ def crop_cells(s, w, width_fn=wcwidth):
 class Screen:
     """Replays tokens.  `height=None` is an unbounded screen (nothing ever scrolls out of reach)."""
 
-    def __init__(self, height=None, width_fn=None):
+    def __init__(self, height=None, width_fn=None, width=None):
         assert height is None or height >= 1
         self.height = height
         self.width_fn = width_fn
+        self.width = width      # None: no auto-wrap; a number: a character that does not fit the row any more
+        #                         goes to the start of the next row (deferred wrap: a row may be filled exactly);
+        #                         the attribute may be changed between writes (the terminal was resized)
+        self.wrapped = 0        # number of auto-wraps that happened
         self.rows = [[]]
         self.row = 0
         self.col = 0
@@ -209,6 +214,12 @@ class Screen:
         w = 1 if self.width_fn is None else self.width_fn(ch)
         if w <= 0:
             return  # zero-width: attaches to the previous cell; the oracle keeps cells single characters
+        if self.width is not None and self.col + w > self.width and self.col > 0:
+            self.wrapped += 1
+            self.row += 1
+            self.col = 0
+            while len(self.rows) <= self.row:
+                self.rows.append([])
         r = self.rows[self.row]
         while len(r) < self.col:
             r.append(BLANK)
@@ -289,6 +300,6 @@ class Screen:
         return [list(r) for r in self.rows]
 
 
-def replay(s, height=None, width_fn=None):
+def replay(s, height=None, width_fn=None, width=None):
     """Convenience: the screen after writing `s` to a fresh terminal."""
-    return Screen(height=height, width_fn=width_fn).write(s)
+    return Screen(height=height, width_fn=width_fn, width=width).write(s)
